@@ -56,10 +56,11 @@ SCHEMA = {
         "core": "obj:ParserCore", "renderer": "opaque", "linkify": "opaque", "utils": "opaque", "helpers": "opaque",
     },
     # abstract view of a token in a children list: only the fields the typographic rules look at
-    "TokenA": {"type": "atom", "info": "atom", "content": "atom", "level": "int", "nesting": "int", "children": "atom", "tag": "atom", "markup": "atom"},
+    "TokenA": {"type": "atom", "info": "atom", "content": "atom", "level": "int", "nesting": "int", "children": "atom", "tag": "atom", "markup": "atom", "hidden": "bool"},
     "Delimiter": {"marker": "int", "length": "int", "token": "int", "end": "int", "open": "bool", "close": "bool"},
     "Scanned": {"can_open": "bool", "can_close": "bool", "length": "int"},
     "StateCoreJ": {"tokens": "reclist:TokenA"},
+    "StateBlockJ": {"tokens": "reclist:TokenA", "level": "int"},
     "StateInlineJ": {"tokens": "reclist:TokenA", "delimiters": "optlist", "tokens_meta": "optlist"},
     "_Result": {"ok": "bool", "pos": "int", "lines": "int", "str": "str"},
     "ParserBlock": {"ruler": "obj:Ruler"},
